@@ -261,27 +261,32 @@ PROPS = {
         "assumes": ["shared declination"],
     },
     "C05": {
-        "level_text": "partial: kernel-checked integer theorems, for every zone function and with the "
-                      "equation of time uninterpreted: the h/m/s carry block and the date roll of noon "
-                      "and midnight are exact (no lost second, no field out of range), noon is on the "
-                      "requested date whenever the candidate the code takes reads that date (in "
-                      "particular when the zone is aligned with mean solar time), and midnight is "
-                      "within 12 h + ε of 00:00 of the date in the zone. The 0.25° agreement with an "
-                      "independent ephemeris is not a theorem.",
-        "level_note": "midnight_nearest assumes consecutive solar midnights are 24 h ± ε apart and the "
-                      "UTC candidate within 36 h of the zone's 00:00.",
-        "lean_modules": ["Astral.Props.C05", "Astral.Props.C05Real"],
+        "level_text": "partial: kernel-checked theorems, for every zone function: the h/m/s carry block "
+                      "and the date roll of noon and midnight are exact (no lost second, no field out "
+                      "of range); the model's equation of time is within 18.7 min of zero over "
+                      "1899-2101 (interval arithmetic over the NOAA series), hence — end to end, for "
+                      "every longitude in [-180, 180], every date of 1900-2100 and every zone function "
+                      "within six hours of the place's mean solar time — noon is on the requested date, "
+                      "and midnight is within 12 h 37 min 26 s of 00:00 of the requested date in the "
+                      "zone. The 0.25° agreement with an independent ephemeris is not a theorem.",
+        "level_note": "The 37 min in the midnight bound are twice the proved equation-of-time bound; "
+                      "the real spacing error of consecutive solar midnights (about 30 s) is not proved.",
+        "lean_modules": ["Astral.Props.C05", "Astral.Props.C05Real", "Astral.Props.EoT",
+                         "Astral.Props.C05Noon"],
         "theorems": [
             "Astral.C05.carrySM_spec", "Astral.C05.carrySM_minute_range", "Astral.C05.mkNoon_spec",
             "Astral.C05.mkMidnight_spec", "Astral.C05.noon_on_date", "Astral.C05.noon_on_date_of_aligned",
             "Astral.C05.midnight_nearest", "Astral.C05Real.noon_is_transit",
             "Astral.C05Real.midnight_is_antitransit", "Astral.C05Real.noon_formula",
-            "Astral.C05Real.noon_is_highest",
+            "Astral.C05Real.noon_is_highest", "Astral.EoT.eqOfTime_bound",
+            "Astral.C05Noon.splitHours_spec", "Astral.C05Noon.noonUtc_value",
+            "Astral.C05Noon.noon_on_requested_date", "Astral.C05Noon.midnightUtc_value",
+            "Astral.C05Noon.midnight_near_zone_midnight",
         ],
         "groups": [G("corr_sun", "sun_events", 4500, 100000), G("corr_sun", "sun_chain", 1400, 30000)],
         "unproved": ["hour angle within 0.25° of 0 / 180 by an independent ephemeris",
-                     "the bound |eq_of_time| < 19 min used to discharge 'aligned'"],
-        "assumes": ["spacing of consecutive solar midnights (ε)"],
+                     "consecutive solar midnights 24 h ± 30 s apart (proved: ± 37 min 26 s)"],
+        "assumes": [],
     },
     "C08": {
         "level_text": "Kernel-checked theorems (exact reals): Python's float modulo is 1440-periodic, the "
@@ -383,13 +388,15 @@ PROPS = {
                       "zoneinfo resolution and the standard offset per zone — tzdata is trusted). The "
                       "parser the theorem uses is the model's recogniser, tied to re/float by the dms "
                       "correspondence; database() is tied by the geocoder correspondence.",
-        "lean_modules": ["Astral.Props.C18"],
+        "lean_modules": ["Astral.Props.C18", "Astral.Props.EoT"],
         "generators": ["gen_tables"],
-        "theorems": ["Astral.C18.builtin_ok", "Astral.C18.builtin_nodup", "Astral.C18.noon_window"],
+        "theorems": ["Astral.C18.builtin_ok", "Astral.C18.builtin_nodup", "Astral.C18.noon_window",
+                     "Astral.EoT.eqOfTime_bound"],
         "groups": [G("corr_geo", "dms", 3000, 40000, exhaustive_thorough=["dms_exhaustive"]),
                    G("corr_geo", "geocoder", 1500, 40000)],
-        "unproved": ["the computed (NOAA) noon in [09:30, 14:30] — follows from noon_window plus the "
-                     "equation-of-time bound, which is not proved"],
+        "unproved": ["the computed (NOAA) noon in [09:30, 14:30]: noon_window plus the proved "
+                     "|eq_of_time| ≤ 18.7 min (Astral.EoT.eqOfTime_bound) bound it to [09:11, 14:49] for a "
+                     "record at the 2.5 h limit; the property's window is checked per record by the scan"],
         "assumes": ["tzdata as installed", "gen_tables.py extracts the rows the module would parse"],
         "trusted_extra": ["harness/gen_tables.py (data translator) and tzdata"],
     },
